@@ -5,6 +5,86 @@ From Coq Require Import List Bool ZArith NArith Arith Lia.
 Import ListNotations.
 From Gnmi Require Import Manager.ManagerModel Manager.ManagerCheck Manager.ManagerProofs.
 
+(** * Declarative readings of K4 *)
+
+Fixpoint no_remove_ok (tr : list event) : bool :=
+  match tr with
+  | [] => true
+  | ERemoveReturned true :: _ | XReturned KRemove true :: _ => false
+  | _ :: tr' => no_remove_ok tr'
+  end.
+
+Fixpoint no_add_ok (tr : list event) : bool :=
+  match tr with
+  | [] => true
+  | EAdd true :: _ | XReturned KAdd true :: _ => false
+  | _ :: tr' => no_add_ok tr'
+  end.
+
+Lemma k_refuse_stays_managed l : forall m rmp ok,
+  m <> 0 -> no_remove_ok l = true -> k_refuse_n m rmp (l ++ [EAdd ok]) = true -> ok = false.
+Proof.
+  induction l as [|e l IH]; intros m rmp ok Hm Hn H.
+  - cbn in H. apply andb_true_iff in H. destruct H as [H _].
+    apply Nat.eqb_neq in Hm. rewrite Hm in H. destruct ok; auto; discriminate.
+  - assert (K : forall m' rmp', m' <> 0 -> k_refuse_n m' rmp' (l ++ [EAdd ok]) = true -> ok = false).
+    { intros m' rmp' Hm' H'. eapply IH; [exact Hm'| |exact H'].
+      destruct e; cbn in Hn; auto; try (destruct ok0; auto; discriminate).
+      destruct k; auto; destruct ok0; auto; discriminate. }
+    destruct e; cbn in H; try (eapply K; eauto; fail).
+    + apply andb_true_iff in H. destruct H as [_ H]. destruct ok0; eapply K; try exact H; lia.
+    + apply andb_true_iff in H. destruct H as [_ H]. eapply K; eauto.
+    + cbn in Hn. destruct ok0; [discriminate|]. apply andb_true_iff in H. destruct H as [_ H].
+      eapply K; eauto.
+    + cbn in Hn. destruct k; try (destruct ok0; [discriminate|]);
+        apply andb_true_iff in H; destruct H as [_ H]; try (destruct ok0);
+        eapply K; try exact H; lia.
+Qed.
+
+Lemma k_refuse_suffix a : forall m rmp b,
+  k_refuse_n m rmp (a ++ b) = true -> exists m' rmp', k_refuse_n m' rmp' b = true.
+Proof.
+  induction a as [|e a IH]; intros m rmp b H; cbn in H; eauto.
+  destruct e; try (eapply IH; eauto; fail);
+    try (apply andb_true_iff in H; destruct H as [_ H]; eauto; fail).
+  destruct k; apply andb_true_iff in H; destruct H as [_ H]; eauto.
+Qed.
+
+Lemma duplicate_add_refused_k a l ok :
+  k_refuse (a ++ EAdd true :: l ++ [EAdd ok]) = true -> no_remove_ok l = true -> ok = false.
+Proof.
+  unfold k_refuse. intros H Hn. apply k_refuse_suffix in H. destruct H as (m & rmp & H).
+  cbn in H. apply andb_true_iff in H. destruct H as [_ H].
+  eapply k_refuse_stays_managed; [|exact Hn|exact H]. lia.
+Qed.
+
+Lemma unknown_remove_refused_k l : forall ok,
+  k_refuse_n 0 false (l ++ [ERemoveReturned ok]) = true -> no_add_ok l = true -> ok = false.
+Proof.
+  induction l as [|e l IH]; intros ok H Hn.
+  - cbn in H. destruct ok; auto; discriminate.
+  - destruct e; cbn in Hn, H; try (eapply IH; eauto; fail).
+    + destruct ok0; cbn in *; try discriminate.
+    + destruct ok0; cbn in *; try discriminate. eapply IH; eauto.
+    + destruct ok0; cbn in *; try discriminate. eapply IH; eauto.
+    + destruct k, ok0; cbn in *; try discriminate; eapply IH; eauto.
+Qed.
+
+(** what acceptance of a log by the model implies for the log itself *)
+Lemma accepts_spec c tr :
+  accepts c tr = true ->
+  emits c tr /\ sessions (callbacks tr) /\ k_stream tr = true /\ k_silence tr = true
+  /\ k_refuse tr = true.
+Proof.
+  intros H. destruct (accepts_sound _ _ H) as (s & Hrun & Hf). apply final_quiescent in Hf.
+  repeat split.
+  - exists s; auto.
+  - eapply model_sessions; eauto.
+  - eapply model_k_stream; eauto.
+  - eapply model_silence; eauto.
+  - eapply model_refusals; eauto.
+Qed.
+
 (** * Concrete logs (non-vacuity of every theorem about [emits]) *)
 
 Definition cfg0 : cfg := {| c_creds := false; c_hops := 1; c_timeout := false |}.
@@ -93,7 +173,7 @@ Lemma tau_goroutine c s s' :
              (if s_cdone s then [set_pc s PFinished] else [])
                ++ [{| s_pc := PMeta; s_rmc := s_rmc s; s_cdone := s_cdone s; s_sdone := s_cdone s;
                       s_rc := s_rc s; s_hu := s_hu s; s_stale := s_stale s; s_phu := s_phu s;
-                      s_add := s_add s |}]
+                      s_add := s_add s; s_x := s_x s; s_rr := s_rr s |}]
          | PMeta => if c_creds c then [] else [set_pc s (PConnCheck (c_hops c))]
          | PConnCheck lft =>
              match lft with
@@ -420,26 +500,151 @@ Proof.
   destruct (s_pc s2); try congruence. destruct m; try congruence. exact H3.
 Qed.
 
-(** silence, on runs: once Remove has returned the model has no goroutine
-    letter until Add is called again *)
-Lemma silence_after_remove c a b e b' s :
-  run c init (a ++ ERemoveReturned true :: b ++ e :: b') s -> is_gor e = true -> In EAddCalled b.
+(** * Silence, refusals and overlapping calls, on runs *)
+
+Lemma vis_gor_managed c s e : is_gor e = true -> vis c s e <> [] -> managed s = true.
 Proof.
-  intros H Hg. eapply k_silence_sound; eauto. eapply model_silence; eauto.
+  intros Hg Hv. unfold managed. destruct (s_pc s) eqn:E; auto. exfalso. apply Hv.
+  destruct e; cbn in Hg; try discriminate; unfold vis; rewrite E; auto.
 Qed.
 
-Lemma duplicate_add_refused c a m ok s :
-  run c init (a ++ EAdd true :: m ++ [EAdd ok]) s -> no_remove_ok m = true -> ok = false.
+(** history flags: [am] = Add was called by the first goroutine since the last
+    successful return of Remove; [xa] = the second goroutine has called Add *)
+Definition gstep (x : bool * bool) (e : event) : option (bool * bool) :=
+  let '(am, xa) := x in
+  match e with
+  | EAddCalled => Some (true, xa)
+  | XCalled KAdd => Some (am, true)
+  | ERemoveReturned true => Some (false, xa)
+  | _ => Some x
+  end.
+
+Definition Rghost (s : st) (x : bool * bool) : Prop :=
+  let '(am, xa) := x in
+  wfb s = true
+  /\ (x_addst s = true -> xa = true)
+  /\ (managed s = true -> am = true \/ xa = true)
+  /\ (managed s = true -> s_rr s = true -> xa = true).
+
+Lemma Rghost_tau c s s' x : In s' (tau c s) -> Rghost s x -> Rghost s' x.
+Proof.
+  destruct x as [am xa]. destruct s as [p rmc cd sd rc hu stl phu ad xs rr].
+  unfold Rghost, tau, wfb, managed, add_none, rc_none, x_none, x_addst, x_eff.
+  cbn [s_pc s_rmc s_cdone s_sdone s_rc s_hu s_stale s_phu s_add s_x s_rr].
+  intros H (W & H1 & H2 & H3).
+  inv_in H; subst s'; cbn [s_pc s_rmc s_cdone s_sdone s_rc s_hu s_stale s_phu s_add s_x s_rr set_pc] in *.
+  all: try (repeat split; auto; fail).
+  all: adaptive.
+Qed.
+
+Lemma Rghost_vis c s e s' x :
+  In s' (vis c s e) -> Rghost s x -> exists x', gstep x e = Some x' /\ Rghost s' x'.
+Proof.
+  destruct x as [am xa]. destruct s as [p rmc cd sd rc hu stl phu ad xs rr].
+  unfold Rghost, vis, wfb, managed, add_none, rc_none, x_none, x_addst, x_eff.
+  cbn [s_pc s_rmc s_cdone s_sdone s_rc s_hu s_stale s_phu s_add s_x s_rr].
+  intros H (W & H1 & H2 & H3).
+  destruct e as [ |ok| |ok| |ok| | |ok|ok| |ok|ok|r| |n0| | | | |k|k ok| | ];
+    cbn [gstep];
+    inv_in H; subst s'; cbn [s_pc s_rmc s_cdone s_sdone s_rc s_hu s_stale s_phu s_add s_x s_rr set_pc] in *.
+  all: repeat first
+         [ solve [eexists; split; [reflexivity|]; adaptive]
+         | split_with ltac:(cbn in *; try discriminate) ].
+Qed.
+
+Lemma gstep_one am xa e am1 xa1 :
+  gstep (am, xa) e = Some (am1, xa1) ->
+  (am1 = true -> am = true \/ e = EAddCalled) /\ (xa1 = true -> xa = true \/ e = XCalled KAdd).
+Proof.
+  destruct e; cbn; intros H; try (inversion H; subst; auto; fail).
+  - destruct ok; inversion H; subst; auto. split; auto. discriminate.
+  - destruct k; inversion H; subst; auto.
+Qed.
+
+Lemma gstep_am tr : forall am xa am' xa',
+  orun gstep (am, xa) tr = Some (am', xa') ->
+  (am' = true -> am = true \/ In EAddCalled tr)
+  /\ (xa' = true -> xa = true \/ In (XCalled KAdd) tr).
+Proof.
+  induction tr as [|e tr IH]; intros am xa am' xa' H; cbn in H.
+  - inversion H; subst; auto.
+  - destruct (gstep (am, xa) e) as [[am1 xa1]|] eqn:G; [|discriminate].
+    destruct (IH _ _ _ _ H) as [A B]. destruct (gstep_one _ _ _ _ _ G) as [A1 B1].
+    split; intros E.
+    + destruct (A E) as [E1|E1]; [|right; right; auto].
+      destruct (A1 E1) as [E2|E2]; auto. right; left; auto.
+    + destruct (B E) as [E1|E1]; [|right; right; auto].
+      destruct (B1 E1) as [E2|E2]; auto. right; left; auto.
+Qed.
+
+(** once Remove has returned there is no callback and no environment query for
+    the name unless Add has been called: by the first goroutine afterwards, or
+    by a second goroutine (possibly while that Remove was still in progress) *)
+Lemma silence_after_remove c a b e b' s :
+  run c init (a ++ ERemoveReturned true :: b ++ e :: b') s -> is_gor e = true ->
+  In EAddCalled b \/ In (XCalled KAdd) (a ++ b).
+Proof.
+  intros H Hg.
+  replace (a ++ ERemoveReturned true :: b ++ e :: b')
+    with ((a ++ ERemoveReturned true :: b) ++ e :: b') in H
+    by (rewrite <- app_assoc; reflexivity).
+  apply run_app_inv in H. destruct H as (s1 & H1 & H2).
+  apply run_head_pc in H2. destruct H2 as (s2 & Ht & Hv).
+  assert (H3 : run c init (a ++ ERemoveReturned true :: b) s2).
+  { rewrite <- (app_nil_r (a ++ ERemoveReturned true :: b)). eapply run_app; eauto. }
+  destruct (simulation_st gstep Rghost c (Rghost_tau c) (Rghost_vis c) _ _ _ H3 (false, false))
+    as ([am xa] & Hx & (W & G1 & G2 & G3)).
+  { cbn. repeat split; auto; discriminate. }
+  rewrite orun_app in Hx.
+  destruct (orun gstep (false, false) a) as [[am1 xa1]|] eqn:Ea; [|discriminate].
+  cbn in Hx. destruct (gstep_am _ _ _ _ _ Ea) as [_ Xa].
+  destruct (gstep_am _ _ _ _ _ Hx) as [Ab Xb].
+  destruct (G2 (vis_gor_managed _ _ _ Hg Hv)) as [E|E].
+  - destruct (Ab E) as [E1|E1]; [discriminate|auto].
+  - right. apply in_or_app. destruct (Xb E) as [E1|E1]; auto.
+    destruct (Xa E1) as [E2|E2]; [discriminate|auto].
+Qed.
+
+Lemma duplicate_add_refused c a l ok s :
+  run c init (a ++ EAdd true :: l ++ [EAdd ok]) s -> no_remove_ok l = true -> ok = false.
 Proof. intros H. eapply duplicate_add_refused_k. eapply model_refusals; eauto. Qed.
 
-Lemma unknown_remove_refused c m ok s :
-  run c init (m ++ [ERemoveReturned ok]) s -> no_add_ok m = true -> ok = false.
-Proof. intros H. eapply unknown_remove_refused_first. eapply model_refusals; eauto. Qed.
-
-Lemma removed_remove_refused c a ok0 m ok s :
-  run c init (a ++ ERemoveReturned ok0 :: m ++ [ERemoveReturned ok]) s ->
-  no_add_ok m = true -> ok = false.
+Lemma unknown_remove_refused c l ok s :
+  run c init (l ++ [ERemoveReturned ok]) s -> no_add_ok l = true -> ok = false.
 Proof. intros H. eapply unknown_remove_refused_k. eapply model_refusals; eauto. Qed.
+
+(** calls of a second goroutine for the same name during a Remove in progress:
+    they get through only after that Remove has completed and the name is
+    unmanaged (so Add starts a fresh monitor; it is never accepted while the old
+    target is managed), and while the Remove is in progress none has got through *)
+Lemma overlap_call_effect_after_remove c s s' k :
+  In s' (tau c s) -> s_x s = XP k -> s_x s' = XE k ->
+  s_rmc s = false /\ s_pc s = PIdle /\ s_pc s' = (match k with KAdd => PLoop | _ => PIdle end).
+Proof.
+  destruct s as [p rmc cd sd rc hu stl phu ad xs rr]. unfold tau, managed.
+  cbn [s_pc s_rmc s_cdone s_sdone s_rc s_hu s_stale s_phu s_add s_x s_rr].
+  intros H E1 E2. subst xs.
+  inv_in H; subst s'; cbn [s_pc s_rmc s_cdone s_sdone s_rc s_hu s_stale s_phu s_add s_x s_rr set_pc] in *;
+    try discriminate; try (inversion E2; subst); auto.
+Qed.
+
+Lemma overlap_pending_while_remove c tr s :
+  run c init tr s -> s_rmc s = true -> forall k, s_x s <> XE k.
+Proof.
+  intros H Hr k E. apply reachable_wf in H. unfold wfb, x_eff in H. rewrite Hr, E in H.
+  cbn in H. rewrite !andb_false_r in H. cbn in H. discriminate.
+Qed.
+
+Lemma overlap_results c a k ok s :
+  run c init (a ++ [XReturned k ok]) s -> ok = match k with KAdd => true | _ => false end.
+Proof.
+  intros H. apply run_app_inv in H. destruct H as (s1 & H1 & H2).
+  apply run_head_pc in H2. destruct H2 as (s2 & _ & Hv).
+  unfold vis in Hv. destruct (s_x s2); try congruence.
+  destruct (xkind_eqb k k0 && Bool.eqb ok match k with KAdd => true | _ => false end) eqn:E;
+    [|congruence].
+  apply andb_true_iff in E. destruct E as [_ E]. apply Bool.eqb_prop in E. exact E.
+Qed.
 
 (** * K6: attribution of cancellations (model after fix C13_1) *)
 
